@@ -83,6 +83,20 @@ func MonC03(c *MonCtx) {
 
 // MonC07 — a failed replica set is deleted only two minutes after it failed and once it reports no pods.
 func MonC07(c *MonCtx) {
+	if c.Out.Ev.K == "R_ers" && !hasFault(c.Out.Log) {
+		// the failure mark is not lost before the rollback: a replica set that is marked Canary-Failed and is still the
+		// one matching spec.template keeps the mark through its own syncs
+		ns, name := split(c.Out.Ev.A)
+		r0, r1 := c.Pre.ERS(ns, name), c.Out.Next.ERS(ns, name)
+		if r0 != nil && r1 != nil && ERSCondTrue(r0, v1.ConditionTypeCanaryFailed) && !ERSCondTrue(r1, v1.ConditionTypeCanaryFailed) {
+			if e := c.Pre.EDS(ns, ownerName(r0)); e != nil && e.Status.ActiveReplicaSet != name {
+				if up := UpToDateRS(c.Pre, e); up != nil && up.Name == name {
+					c.Violate("C07", "C07/sticky: a replica set marked Canary-Failed lost the mark in its own sync before the rollback", name)
+				}
+			}
+		}
+		return
+	}
 	if c.Out.Ev.K != "R_eds" {
 		return
 	}
